@@ -398,13 +398,28 @@ class CachedFcn(UserFcn):
 
     @staticmethod
     def _sameArgument(x, y):
-        """True if the new argument is the remembered one, or compares equal to it."""
+        """True if the new argument is the remembered one, or is of the same kind and compares equal to it."""
         if x is y:
             return True
         try:
+            if isinstance(x, dict) or isinstance(y, dict):
+                return (
+                    isinstance(x, dict)
+                    and isinstance(y, dict)
+                    and x.keys() == y.keys()
+                    and all(CachedFcn._sameArgument(x[k], y[k]) for k in x)
+                )
+            if np is not None and (isinstance(x, np.ndarray) or isinstance(y, np.ndarray)):
+                # an array is never "the same argument" as a scalar, even if it has one equal element
+                return (
+                    isinstance(x, np.ndarray)
+                    and isinstance(y, np.ndarray)
+                    and x.shape == y.shape
+                    and bool(np.array_equal(x, y))
+                )
             return bool(np.array_equal(x, y)) if np is not None else bool(x == y)
         except Exception:
-            # e.g. a dict of arrays against a dict of scalars: not comparable, so not the same
+            # not comparable, so not the same
             return False
 
     def __call__(self, *args, **kwds):
